@@ -25,7 +25,7 @@ var genesisNotStored = map[string]bool{"Balance": true}
 func randName(slash bool) string {
 	n := 1 + rng.Intn(12)
 	b := make([]byte, n)
-	const cs = "abcdefghijklmnopqrstuvwxyz.-_0123456789"
+	const cs = "abcdefghijklmnopqrstuvwxyz.-_0123456789ABCDEFGHIJKLMNOPQRSTUVWXYZ"
 	for i := range b {
 		switch {
 		case slash && rng.Chance(1, 6):
